@@ -540,4 +540,12 @@ def runLoop (fuel : Nat) (k : Kind) (P slot : Nat) (r : R) (s : σ) : Option (Li
 
 end exec
 
+/-! ## parallel_for(first, last, step, f) -/
+
+/-- number of iterations of the underlying blocked_range: `end = (last - first - 1) / step + 1` (nothing for `first ≥ last`) -/
+def stridedEnd (first last step : Nat) : Nat := if first < last then (last - first - 1) / step + 1 else 0
+
+/-- the value passed to `f` for iteration `i` of the blocked_range: `k = my_begin + i * my_step` -/
+def stridedIndex (first step i : Nat) : Nat := first + i * step
+
 end TbbVerif.C05
